@@ -109,11 +109,17 @@ def cases(draw, path):
     spec = draw(ignore_specs(sig, kind))
     km = draw(st.sampled_from(KMS))
     module = 'safe' if (km['cls'] == 'keymap' and not km['flat']) else draw(st.sampled_from(['std', 'safe']))
+    insts = None
+    if kind == 'method' and draw(st.booleans()):
+        # a real method: the function is installed in a class, and the two calls may go through different instances (empty = falsy, or not)
+        insts = [[draw(st.integers(0, 1)), draw(st.sampled_from([0, 0, 3]))], [draw(st.integers(0, 1)), draw(st.sampled_from([0, 3, 3]))]]
+        if draw(st.integers(0, 2)) == 0:
+            b2, ek = copy.deepcopy(b1), ['instance_only']
     pkw = []
     if kind == 'partial':
         # a functools.partial that presets extra (**kw) keywords: under '**' they are ignored like the caller's own extra keywords
         pkw = [[n, draw(vals)] for n in draw(st.lists(st.sampled_from(S.XKW[:3]), unique=True, min_size=1, max_size=2))]
-    return {'sig': sig, 'kind': kind, 'pkw': pkw, 'b1': b1, 'b2': b2, 'edits': ek, 'ignore': spec, 'form1': draw(st.integers(0, 255)),
+    return {'sig': sig, 'kind': kind, 'insts': insts, 'pkw': pkw, 'b1': b1, 'b2': b2, 'edits': ek, 'ignore': spec, 'form1': draw(st.integers(0, 255)),
             'form2': draw(st.integers(0, 255)), 'keymap': km, 'path': path, 'module': module,
             'algo': draw(st.sampled_from(['inf', 'lru', 'lfu', 'mru', 'rr'] + H.DISPATCHED))}
 
@@ -263,13 +269,28 @@ def keys_for(case, target, prefix, ignore_value, calls, log):
 
 
 def run_case(case):
+    if case.get('insts'):
+        try:
+            return _run_case(case)
+        finally:
+            if 'f' in S.Inst.__dict__:
+                delattr(S.Inst, 'f')
+    return _run_case(case)
+
+
+def _run_case(case):
     out = []
     sig, kind = case['sig'], case['kind']
     log = []
     body = lambda named, va, vk: log.append(1) or len(log)
+    p1 = p2 = ()
     if kind == 'method':
         target = S.make_plain(S.with_self(sig), body)
         prefix = (S.Holder(),)
+        if case.get('insts'):
+            prefix = ()
+            S.Inst.f = target          # getattr(instance, 'f') is now a bound method of the generated function, as for any method defined in a class body
+            p1, p2 = (S.Inst(*case['insts'][0]),), (S.Inst(*case['insts'][1]),)
     else:
         target = S.make_plain(sig, body)
         prefix = ()
@@ -290,6 +311,13 @@ def run_case(case):
         return [], None, classes
     a1, k1 = S.spell_full(sig, b1, case['form1'])
     a2, k2 = S.spell_full(sig, b2, case['form2'])
+    a1, a2 = p1 + a1, p2 + a2
+    if p1:
+        classes.append('attached_method')
+        if p1[0] != p2[0]:
+            classes.append('instances_differ')
+        if bool(p1[0]) != bool(p2[0]):
+            classes.append('instance_truthiness_differs')
     if kind == 'partial':
         # what the underlying function is really called with: the partial's presets, overridden by the caller's keywords
         x, y = S.bound(plain, a1, dict(preset, **k1)), S.bound(plain, a2, dict(preset, **k2))
@@ -330,6 +358,7 @@ def run_case(case):
         e = equalise(sel, sig, kind, b1, b2)
         if valid_binding(sig, e):
             ae, ke = S.spell_full(sig, e, case['form2'])
+            ae = (p1 if 'self' in sel['named'] else p2) + ae
             z = S.bound(target, prefix + ae, ke)
             if z is not None:
                 try:
@@ -353,7 +382,7 @@ def run_case(case):
     return out, nt, classes
 
 
-REQUIRED_CLASSES = ['pair:only_ignored_differs', 'pair:non_ignored_differs', 'discrimination_checked', 'mixed_selectors', 'self_ignored',
+REQUIRED_CLASSES = ['attached_method', 'instance_truthiness_differs', 'pair:only_ignored_differs', 'pair:non_ignored_differs', 'discrimination_checked', 'mixed_selectors', 'self_ignored',
                     'style:bare', 'style:list', 'kind:method']
 
 
